@@ -6,7 +6,13 @@ import Aiorpcx.C16.Wire
          `next_message()` calls of three scripted dialogues, separated by ` | `:
          SOCKS4/4a: `start`
          SOCKS5:    `start | 0500 -> .. | 0502 -> .., 0100 -> ..`
-         (a result is `M<hex>`, `None`, `N<k>` (NeedData) or `E:<Exception>`) -/
+         (a result is `M<hex>`, `None`, `N<k>` (NeedData) or `E:<Exception>`)
+    in : `px <proto> <host> <port> <auth> <attempt> ...`   (attempt: see `Wire.parseAttempt`)
+         `create_connection` to one remote address through a proxy whose own address resolves
+         to one entry per attempt
+    out: `<result> | <bytes the proxy received on the connection of attempt 0> | ...`
+         result = `connected` / `E:<Exception>`; per tried attempt the concatenated bytes in hex
+         (`-` empty, `.` no connection was made) -/
 open Aiorpcx Aiorpcx.Socks Aiorpcx.Socks.Wire
 
 def dialogue (cfg : Cfg) (chunks : List Bytes) : String :=
@@ -25,8 +31,23 @@ def run (p h port a : String) (light : Bool) : String :=
         else dialogue cfg [] ++ " | " ++ dialogue cfg [[5, 0]] ++ " | " ++ dialogue cfg [[5, 2], [1, 0]]
   | _, _, _, _ => "bad-op"
 
+def showSent : Option (List Bytes) → String
+  | none => "."
+  | some ms => Hex.showBytes ms.flatten
+
+def runPx (p h port a : String) (attempts : List String) : String :=
+  match parseProto p, parseHost h, port.toNat?, parseAuth a, attempts.mapM parseAttempt with
+  | some p, some h, some port, some a, some atts =>
+    let mk := mkCfg p h port a
+    let res := match createConnection1 mk atts with
+      | .connected _ _ => "connected"
+      | .raised e => "E:" ++ showExc e
+    String.intercalate " | " (res :: (connectOneSent mk atts).map showSent)
+  | _, _, _, _, _ => "bad-op"
+
 def handle (line : String) : String :=
   match (line.splitOn " ").filter (· ≠ "") with
+  | "px" :: p :: h :: port :: a :: attempts => runPx p h port a attempts
   | [p, h, port, a] => run p h port a false
   | [p, h, port, a, "d1"] => run p h port a true
   | _ => "bad-op"
